@@ -37,7 +37,9 @@ pub fn run(ctx: &Ctx) -> Value {
     let mut rng = Rng::new(ctx.seed ^ 0x15);
     let mut tc = Tw::new(&ctx.out, "Trace_ItemsCount", ctx.t(400, 4_000));
     let rounds = ctx.t(1, 12);
-    let dates: Vec<NaiveDate> = [MIN_DAY, MIN_DAY + 1, MIN_DAY + 366, -1, 0, 1, 719_163, 738_000, 738_000 + 59, MAX_DAY - 366, MAX_DAY - 1, MAX_DAY].iter().map(|&n| mk_date(n)).collect();
+    let dates: Vec<NaiveDate> = [MIN_DAY, MIN_DAY + 1, MIN_DAY + 366, -1, 0, 1, 719_163, 738_000, 738_000 + 59, MAX_DAY - 366, MAX_DAY - 1, MAX_DAY,
+        // the days on which the 64-bit nanosecond timestamp window begins and ends (1677-09-21, 2262-04-11) and their neighbours
+        612_410, 612_411, 825_913, 825_914].iter().map(|&n| mk_date(n)).collect();
     let times: Vec<NaiveTime> = vec![mk_time_any(0, 0), mk_time_any(86_399, 999_999_999), mk_time_any(86_399, 1_999_999_999), mk_time_any(43_200, 1_000_000_000), mk_time_any(59, 1_500_000_000), mk_time_any(86_399, 1_600_000_000)];
     // (sub-second parts near one second: sums of nanosecond fields reach beyond i32::MAX for leap-second operands)
     let durs: Vec<TimeDelta> = [0i128, 1, -1, NS, -NS, 86_400 * NS, -86_400 * NS, DUR_LIM, -DUR_LIM, DUR_LIM - 1, i64::MAX as i128, -(i64::MAX as i128) - 1,
